@@ -149,6 +149,7 @@ def run():
     ck.cov['evaluations'] = nprot
     ck.cov['distinct_nontrivial'] = len(set(s['text'] for s in scens))
     ck.cov['rule'] = 'API histories (TLC-generated + directed + one full-memory secure history with real dataset-init calls) with all JIT VMs secure and all caches JIT; non-trivial = distinct scenario'
+    ck.cov['rule'] += '; plus: refused protection changes (k-th mprotect fails) during secure VM creation / hashing / cache re-keying, all secure combinations with an emulated huge-page pool'
     ck.sample({'scenario': scens[0]['text'].splitlines()})
     osl = [l for l in lines if l.startswith('{"e": "os"')]
     ck.sample(osl[:6])
